@@ -28,6 +28,10 @@ def split_logical(cond, pol):
     (When the right operand needs temporaries clang evaluates the whole logical expression in
     the join block, so the branch condition is the `&&`/`||` itself.)"""
     c = unwrap_casts(cond)
+    if isinstance(c, dict) and c.get('k') == 'un' and c.get('op') == '!':
+        inner = unwrap_casts(c.get('e'))
+        if isinstance(inner, dict) and inner.get('k') == 'bin' and inner.get('op') in ('&&', '||'):
+            return split_logical(inner, 'F' if pol == 'T' else 'T')
     if isinstance(c, dict) and c.get('k') == 'bin' and c.get('op') == '&&' and pol == 'T':
         return split_logical(c.get('l'), 'T') + split_logical(c.get('r'), 'T')
     if isinstance(c, dict) and c.get('k') == 'bin' and c.get('op') == '||' and pol == 'F':
